@@ -226,6 +226,32 @@ def coordinator_traces(ctx, pid, n):
     ctx.violation("%s: rejected event %s" % (what, json.dumps(last)[:600]), p)
 
 
+def witness_continuations(ctx, path, per_witness):
+    """Random walks that first follow a witness schedule and then continue from the state it reaches."""
+    import re
+    wdir = os.path.join(vf.VERIF, "replays", "witness")
+    base = open(os.path.join(vf.SPEC, "cfg", "shard-witness-sim.cfg")).read()
+    n = 0
+    with open(path, "w") as out:
+        for f in sorted(os.listdir(wdir)):
+            if not f.endswith(".json"):
+                continue
+            w = json.load(open(os.path.join(wdir, f)))
+            depth = len(w["script"]) + 22
+            cfg = re.sub(r"(?m)^(\s*MaxDepth\s*=\s*).*$", r"\g<1>%d" % depth, base)
+            cp = os.path.join(ctx.scratch, "wsim-%s.cfg" % f[:-5])
+            open(cp, "w").write(cfg)
+            text = "\n".join(json.dumps(a) for a in w["script"]) + "\n"
+            r = ctx.tlc("OxiaShardSim", cp, workers=1, label="wsim-" + f[:-5], cwd_files={"script.ndjson": text},
+                        simulate="num=%d" % per_witness, depth=depth + 1, timeout=300)
+            pre = '<<"RUN", "'
+            for l in r.out.splitlines():
+                if l.startswith(pre) and l.endswith('">>'):
+                    out.write(l[len(pre):-3].replace('\\"', '"').replace("\\\\", "\\") + "\n")
+                    n += 1
+    return n
+
+
 def run(ctx, pid):
     quick = ctx.tier == "quick"
     ctx.assumptions += [
@@ -261,6 +287,13 @@ def run(ctx, pid):
         other += report(ctx, pid, wres, "witness")
         reached |= findings_reached(ctx, pid, wruns, wres, "witness")
         ctx.notes["known_findings_reproduced"] = sorted(reached)
+        # ... and random continuations from the states the witnesses reach
+        cruns = os.path.join(ctx.scratch, "wsim.ndjson")
+        nc = witness_continuations(ctx, cruns, 12 if quick else 150)
+        if nc:
+            cres = replay(ctx, binp, cruns, "witness-continuations")
+            other += report(ctx, pid, cres, "wcont")
+            reached |= findings_reached(ctx, pid, cruns, cres, "wcont")
         ctx.notes["witness_schedules"] = names
     ctx.notes["actions_replayed"] = res.get("actions")
     with open(runs) as f:
